@@ -841,7 +841,13 @@ func (h *packetHandlerMap) ReplaceWithClosed(ids []protocol.ConnectionID, connCl
 	time.AfterFunc(expiry, func() {
 		h.mutex.Lock()
 		for _, id := range ids {
-			delete(h.handlers, id)
+			// Only retire the closed connection's own entry. With zero-length connection IDs
+			// (a QUICSpec with SrcConnIDLength 0) the next dial on this transport uses the same
+			// (empty) ID, and must not lose its routing when the previous connection's grace
+			// period ends.
+			if h.handlers[id] == handler {
+				delete(h.handlers, id)
+			}
 		}
 		if len(h.handlers) == 0 {
 			t := (*Transport)(h)
